@@ -1,6 +1,6 @@
 (* Properties/C09.v -- Poisson sampling: independent inclusion at the accounted rate, empties kept. *)
 From Coq Require Import ZArith List Bool Sorting.Sorted.
-From OV Require Import Base.Num Base.NumZ Base.NumF Base.Py Model.Sampler Model.Batch Gen.Engine Gen.SamplerPins Proofs.SamplerP Proofs.BatchP.
+From OV Require Import Base.Num Base.NumZ Base.NumF Base.Py Model.Sampler Model.Batch Gen.Engine Gen.SamplerPins Proofs.SamplerP Proofs.BatchP Proofs.EngineP.
 Import ListNotations.
 
 (* a Poisson batch (mask = torch.rand(N) < q; mask.nonzero()): strictly increasing -- hence duplicate free --, within
@@ -51,9 +51,18 @@ Example C09_nonvacuous :
   mask_indices (sample_mask (T:=Z) 5%Z [7; 2; 5; 4; 9; 0]%Z) = [1; 3; 5]%Z /\ shard 1 3 [10; 11; 12; 13; 14; 15; 16]%Z = [11; 14]%Z.
 Proof. split; reflexivity. Qed.
 
+(* the expected batch size used for averaging (generated from make_private) is the integer part of q * N for q = 1 / len(loader) taken
+   exactly -- B for a loader of L batches of B samples, for every L; the product of the binary64 numbers falls below B for L = 49, 98, 103, ... *)
+Theorem C09_expected_batch_size_is_integer_part {T} {N : Num T} (Nd B L : Z) (r : T) :
+  engine_expected_batch_size Nd L r = (Nd / L)%Z /\ ((0 < L)%Z -> engine_expected_batch_size (B * L) L r = B).
+Proof. exact (conj (expected_batch_size_integer_part Nd L r) (expected_batch_size_exact B L r)). Qed.
+Example C09_float_product_truncates_below : ntrunc (nmul (nofZ 3136%Z) (engine_sample_rate (T:=PrimFloat.float) 49%Z)) = 63%Z.
+Proof. exact float_product_truncates_below. Qed.
+
 Print Assumptions C09_batch_indices_spec.
 Print Assumptions C09_batches_per_epoch.
 Print Assumptions C09_rate_is_accounted_rate.
 Print Assumptions C09_strided_shards_partition.
 Print Assumptions C09_empty_batch_structure.
 Print Assumptions C09_collate_delivers_one_structure.
+Print Assumptions C09_expected_batch_size_is_integer_part.
